@@ -402,8 +402,23 @@ def scaled_tri_check(seed):
         with warnings.catch_warnings():
             warnings.simplefilter('ignore')
             bad, _ = check_gen(obj, V, T)
+            if bad:
+                return ('gennormals:%s:scaled' % bad[0], '%s: %s' % (where, bad[1]))
+            # "recomputing": the normals are computed from the vertices as they are NOW — after they were moved, and for a
+            # set bound (under a non-uniform scale) from a set whose normals had been generated before
+            step = rng.choice(['move', 'bind', 'again'])
+            if step == 'move':
+                obj.vertex[:, 1] *= 2
+                obj.vertex[:, 2] *= 4
+            elif step == 'bind':
+                m = numpy.identity(4, dtype=numpy.float32)
+                m[1, 1], m[2, 2] = 2, 4
+                obj = obj.bind(m, {}) if how == 'unbound' else obj
+            V2, T2 = extract(obj)
+            bad, _ = check_gen(obj, V2, T2)
         if bad:
-            return ('gennormals:%s:scaled' % bad[0], '%s: %s' % (where, bad[1]))
+            return ('gennormals:%s:regenerated' % bad[0], '%s, generateNormals() a second time after %s: %s'
+                    % (where, {'move': 'the vertices were moved (y*2, z*4)', 'bind': 'binding under the scale (1,2,4)', 'again': 'nothing changed'}[step], bad[1]))
         return None
     bad, _ = check_tri_normals(obj, V, T)
     if bad:
